@@ -176,6 +176,22 @@ func cmdCheck(args []string) int {
 		fmt.Fprintln(os.Stderr, "no harness for", *prop, err)
 		return 2
 	}
+	if *prop == "C12" && os.Getenv("SYMGO_NO_GEN") == "" {
+		// C12-C: harnesses for every generated router are produced from the current tree's types on every run
+		gtmp, gerr := os.MkdirTemp("", "symgo-c12gen-")
+		if gerr != nil {
+			fmt.Fprintln(os.Stderr, gerr)
+			return 2
+		}
+		defer os.RemoveAll(gtmp)
+		gen, gerr := genRouterHarnesses(gtmp)
+		if gerr != nil {
+			fmt.Fprintln(os.Stderr, "router harness generation failed:", gerr)
+			return 2
+		}
+		files = append(files, gen...)
+		fmt.Printf("generated %d router harness files from the current tree\n", len(gen))
+	}
 	ld, err := load(*prop, files)
 	if err != nil {
 		fmt.Fprintln(os.Stderr, "load failed:", err)
